@@ -15,7 +15,6 @@ Definition QC (st : state) : Prop :=
   forall n t c id, In (n, t) (tags st) -> t_live t = true -> memN c (t_conv t) = true -> mem id (t_m t) = true -> J st c id.
 
 Definition Qaux (st : state) : Prop :=
-  (forall n t c, In (n, t) (tags st) -> t_live t = true -> memN c (t_conv t) = true -> memN c (convs st) = true) /\
   (forall c, bounded (next st) (toconv st c)) /\
   (forall j, jconv st = Some j -> cj_done j = false -> forall cs, In cs (cj_sets j) -> bounded (cj_next j) (snd cs)).
 
@@ -385,7 +384,7 @@ Proof.
     apply (qc_cm st); [exact Q|apply cm_refl|intros c id; apply J_frame; reflexivity].
   - (* ABodyConvert *) destruct (jconv st) as [j|] eqn:JC; [|simpl; rewrite JC; exact Q].
     destruct (cj_done j) eqn:D; [simpl; rewrite JC, D; exact Q|]. rewrite (bconv_eq st p j JC D).
-    destruct TC as (_ & _ & _ & _ & _ & _ & _ & _ & _ & (_ & NJ) & _). destruct (NJ j JC) as (ND & _). destruct QA as (_ & _ & BJ).
+    destruct TC as (_ & _ & _ & _ & _ & _ & _ & _ & _ & (_ & NJ) & _). destruct (NJ j JC) as (ND & _). destruct QA as (_ & BJ).
     apply (qc_cm st); [exact Q|apply cm_refl|intros c id; apply J_bconv; auto].
   - (* ABodyMerge *) simpl. destruct (jmerge st) as [j|]; [|exact Q]. destruct (mj_res j); [exact Q|].
     apply (qc_cm st); [exact Q|apply cm_refl|intros c id; apply J_frame; reflexivity].
@@ -434,4 +433,214 @@ Proof.
       * intros vv E. simpl. congruence.
       * intros H. simpl. unfold fupd. destruct (c' =? c) eqn:EC; [apply N.eqb_eq in EC; subst; rewrite mem_add1, H; reflexivity|exact H].
   - (* AViewClose *) simpl. apply (qc_cm st); [exact Q|apply cm_refl|intros c id; apply J_frame; reflexivity].
+Qed.
+
+(* ---------------------------------------------------------------- queues and job sets stay within the id range *)
+Definition Qb (st : state) : Prop := Qaux st.
+
+Lemma qb_frame st st' : next st' = next st -> toconv st' = toconv st -> jconv st' = jconv st -> Qb st -> Qb st'.
+Proof. unfold Qb, Qaux. intros -> -> ->. auto. Qed.
+
+Lemma qb_toconv st f : (forall c, bounded (next st) (f c)) -> Qb st -> Qb (set_toconv st f).
+Proof. intros H (_ & B). split; [exact H|exact B]. Qed.
+
+Lemma qb_start_converter st : Qb st -> Qb (start_converter st).
+Proof.
+  intros H. pose proof H as (A & B). unfold start_converter. destruct (jconv st) eqn:J; [exact H|].
+  destruct (filter _ (convs st)) as [|c0 l]; [exact H|]. split.
+  - intros c. cbn [toconv next set_cupd set_jconv set_toconv]. destruct (memN c (c0 :: l)); [apply bounded_0|apply A].
+  - intros j E _ cs I. cbn [jconv set_cupd set_jconv] in E. inversion E; subst; clear E. cbn [cj_sets cj_next] in *.
+    change (In cs (map (fun c1 => (c1, toconv st c1)) (c0 :: l))) in I.
+    apply in_map_iff in I. destruct I as (c & <- & _). simpl. apply A.
+Qed.
+
+Lemma qb_start_tagging p st : Qb st -> Qb (start_tagging p st).
+Proof. intros H. destruct (start_tagging_keep p st) as (_ & _ & FT & FJ & _ & FN). apply (qb_frame st); assumption. Qed.
+Lemma qb_start_merge st : Qb st -> Qb (start_merge st).
+Proof. intros H. destruct (start_merge_keep st) as (_ & _ & FT & FJ & _ & FN). apply (qb_frame st); assumption. Qed.
+Lemma qb_starts p st : Qb st -> Qb (start_merge (start_converter (start_tagging p st))).
+Proof. intros. apply qb_start_merge, qb_start_converter, qb_start_tagging. assumption. Qed.
+
+Lemma qb_invalidate st s : (forall c i v, cache st c i = Some v -> i < next st) -> Qb st -> Qb (invalidate_converters st s).
+Proof.
+  intros CB (A & B). split; [|exact B]. intros c. simpl. destruct (memN c (convs st)); [|apply A].
+  apply union_bounded; [apply A|]. intros i Hi. apply fold_hit_sub in Hi. destruct Hi as [Hi|Hi]; [rewrite mem_0 in Hi; discriminate|].
+  destruct (cache st c i) eqn:E; [eapply CB; exact E|congruence].
+Qed.
+
+Lemma qb_queue_matches st cs m : bounded (next st) m -> Qb st -> Qb (queue_matches st cs m).
+Proof.
+  intros Bm (A & B). split; [|exact B]. intros c. simpl. destruct (memN c cs); [apply union_bounded; [apply A|exact Bm]|apply A].
+Qed.
+
+Lemma qb_detach st n c : Qb st -> Qb (detach st n c).
+Proof.
+  intros H. pose proof H as (A & B). unfold detach. destruct (tget n (tags st)); [|exact H].
+  match goal with |- context[if ?b then _ else _] => destruct b end; (split; [|exact B]); intros c'; simpl; unfold fupd;
+    (destruct (c' =? c); [apply diff_bounded; apply A|apply A]).
+Qed.
+
+Lemma qb_attach st n c st' : tags_bounded (next st) (tags st) -> attach st n c = Some st' -> Qb st -> Qb st'.
+Proof.
+  intros TB E H. pose proof H as (A & B). unfold attach in E. destruct (tget n (tags st)) as [t|] eqn:Tn; [|inversion E; subst; exact H].
+  destruct (tag_has_conv c t); [inversion E; subst; exact H|]. destruct (complex (t_def t)); [discriminate|]. inversion E; subst.
+  split; [|exact B]. intros c'. simpl. unfold fupd. destruct (c' =? c); [|apply A].
+  apply union_bounded; [apply A|]. destruct (tget_In _ _ _ Tn) as (I & _). exact (proj2 (TB n t I)).
+Qed.
+
+Definition TB3 (st : state) : Prop := Tcore st /\ Qb st.
+Lemma tb3_detach st n c : TB3 st -> TB3 (detach st n c).
+Proof. intros (A & B). split; [apply detach_core; exact A|apply qb_detach; exact B]. Qed.
+Lemma tb3_fold (f : state -> N -> state) l : (forall s c, TB3 s -> TB3 (f s c)) -> forall st, TB3 st -> TB3 (fold_left f l st).
+Proof. intros Hf. induction l; simpl; auto. Qed.
+Lemma tb3_attach_all cs : forall st n, TB3 st -> TB3 (fst (attach_all st n cs)).
+Proof.
+  induction cs as [|c cs IH]; simpl; intros st n H; [exact H|].
+  destruct (memN c (convs st)); [|exact H]. destruct (attach st n c) eqn:E; [|exact H].
+  apply IH. destruct H as (TC & Q). split; [eapply attach_core; eassumption|].
+  eapply qb_attach; [|exact E|exact Q]. destruct TC as (_ & _ & _ & TBd & _). exact TBd.
+Qed.
+
+Lemma add1_bounded nx i s : i < nx -> bounded nx s -> bounded nx (add1 i s).
+Proof. intros L B j H. rewrite mem_add1 in H. apply orb_true_iff in H. destruct H as [H|H]; [apply B; exact H|apply N.eqb_eq in H; lia]. Qed.
+
+Theorem qb_step p a st : Tinv st -> Qb st -> valid st a -> Qb (step repaired p a st).
+Proof.
+  intros TI QB V. pose proof (proj1 (Tinv_split st) TI) as (TC & _ & (CA & CB & _)).
+  pose proof TC as (So & _ & _ & TBd & _ & _ & _ & _ & TJ & _).
+  assert (forall c i v, cache st c i = Some v -> i < next st) as CBD by (intros c i v E; exact (proj1 (CA c i v E))).
+  destruct a.
+  - simpl. destruct files; [exact QB|]. match goal with |- context[if ?b then _ else _] => destruct b end; (apply (qb_frame st); try reflexivity; exact QB).
+  - simpl. destruct (tget n (tags st)); [exact QB|]. destruct (refs_ok n d (tags st)); [|exact QB].
+    destruct (d_mark d); [|apply qb_start_tagging]; (apply (qb_frame st); try reflexivity; exact QB).
+  - simpl. destruct (tget n (tags st)) as [t|]; [|exact QB]. destruct (referenced n (tags st)); [exact QB|].
+    set (st1 := fold_left (fun s c => detach s n c) (t_conv t) st).
+    assert (TB3 st1) as (_ & Q1) by (apply tb3_fold; [intros; apply tb3_detach; assumption|split; assumption]).
+    apply (qb_frame st1); try reflexivity; exact Q1.
+  - simpl. destruct (tget n (tags st)) as [t|]; [|exact QB]. destruct (refs_ok n d (tags st)); [|exact QB].
+    apply qb_start_converter, qb_start_tagging. apply (qb_frame st); try reflexivity; exact QB.
+  - simpl. destruct (tget n (tags st)) as [t|]; [|exact QB]. destruct ids as [|i0 ids]; [exact QB|].
+    destruct (N.leb_spec (next st) (maxl (i0 :: ids))) as [|LT]; [exact QB|].
+    apply qb_start_converter, qb_start_tagging.
+    match goal with |- Qb (set_tags ?S1 _) => apply (qb_frame S1); try reflexivity end.
+    apply qb_queue_matches; [apply idset_bounded; exact LT|exact QB].
+  - simpl. destruct (tget n (tags st)) as [t|]; [|exact QB]. destruct ids as [|i0 ids]; [exact QB|].
+    destruct (next st <=? maxl (i0 :: ids)); [exact QB|].
+    apply qb_start_converter, qb_start_tagging. apply (qb_frame st); try reflexivity; exact QB.
+  - simpl. destruct (tget n (tags st)); [|exact QB].
+    match goal with |- context[if ?b then _ else _] => destruct b end; [|exact QB].
+    apply qb_start_converter. apply tb3_attach_all. apply tb3_fold; [|split; assumption].
+    intros s c Hs. destruct (memN c cs); [exact Hs|apply tb3_detach; exact Hs].
+  - simpl. destruct (jimp st) as [j|]; [|exact QB]. destruct (ij_resp j); [exact QB|]. apply (qb_frame st); try reflexivity; exact QB.
+  - simpl. destruct (jtag st) as [j|]; [|exact QB]. destruct (tj_res j); [exact QB|]. apply (qb_frame st); try reflexivity; exact QB.
+  - destruct (jconv st) as [j|] eqn:JC; [|simpl; rewrite JC; exact QB].
+    destruct (cj_done j) eqn:D; [simpl; rewrite JC, D; exact QB|]. rewrite (bconv_eq st p j JC D).
+    destruct QB as (A & B). split; [exact A|]. intros j' E D'. unfold bconv_state in E. simpl in E. inversion E; subst. discriminate.
+  - simpl. destruct (jmerge st) as [j|]; [|exact QB]. destruct (mj_res j); [exact QB|]. apply (qb_frame st); try reflexivity; exact QB.
+  - destruct k.
+    + simpl. destruct (jimp st) as [[nf [r|]]|] eqn:JI; try exact QB. apply qb_starts.
+      destruct TC as (_ & _ & _ & _ & _ & _ & _ & _ & _ & _ & _ & IT). destruct (IT nf r JI) as (_ & (R1 & _) & _).
+      assert (forall st1, Qb st1 ->
+        Qb (match skipn (ir_proc r) (queue st1) with
+            | [] => set_queue st1 (skipn (ir_proc r) (queue st1))
+            | _ :: _ => set_jimp (set_queue st1 (skipn (ir_proc r) (queue st1))) (Some (mkImp (length (skipn (ir_proc r) (queue st1))) None)) end)) as HQ.
+      { intros st1 Q1. destruct (skipn (ir_proc r) (queue st1)); (apply (qb_frame st1); try reflexivity; exact Q1). }
+      destruct (ir_idx r) eqn:EI.
+      * apply HQ. apply (qb_frame st); try reflexivity; exact QB.
+      * apply HQ. simpl. apply qb_invalidate.
+        -- simpl. intros c i v E. apply CBD in E. lia.
+        -- destruct QB as (A & B). split; simpl; [intros c; eapply bounded_mono; [exact R1|apply A]|exact B].
+    + destruct (jtag st) as [[n d m0 u0 cv snap h [res|]]|] eqn:JT; try (simpl; rewrite JT; exact QB).
+      rewrite (ctag_eq st p n d m0 u0 cv snap h res JT). apply qb_starts.
+      destruct (TJ _ JT) as (_ & _ & _ & BR). simpl in BR. specialize (BR res eq_refl).
+      unfold ctag_pre. cbv zeta. change (tags (set_jtag st None)) with (tags st).
+      destruct (tget n (tags st)) as [ot|]; [|apply (qb_frame st); try reflexivity; exact QB].
+      destruct (defn_eqb (t_def ot) d); [|apply (qb_frame st); try reflexivity; exact QB].
+      match goal with |- Qb (set_tags ?S1 _) => apply (qb_frame S1); try reflexivity end.
+      apply qb_queue_matches; [exact BR|]. apply (qb_frame st); try reflexivity; exact QB.
+    + destruct (jconv st) as [[sets v nx [|]]|] eqn:JC; try (simpl; rewrite JC; exact QB).
+      rewrite (cconv_eq st p sets v nx JC). apply qb_starts. unfold cconv_pre.
+      match goal with |- Qb (set_masks (set_tags ?S0 _) _ _ _) => apply (qb_frame S0); try reflexivity end.
+      apply qb_invalidate; [exact CBD|]. destruct QB as (A & B). split; [exact A|]. intros j E. simpl in E. discriminate.
+    + simpl. destruct (jmerge st) as [[off snap [merged|]]|]; try exact QB.
+      apply qb_start_merge. apply (qb_frame st); try reflexivity; exact QB.
+  - simpl. apply (qb_frame st); try reflexivity; exact QB.
+  - simpl. destruct (find _ (views st)) as [[v0 sv]|]; [|exact QB]. destruct (cache st c i); [exact QB|].
+    destruct (N.ltb_spec i (next st)) as [LT|]; simpl; [|exact QB].
+    destruct (memN c (convs st)); simpl; [|exact QB].
+    destruct (sv i =? ver st i).
+    + apply (qb_frame st); try reflexivity; exact QB.
+    + apply qb_start_converter. destruct QB as (A & B). split; [|exact B]. intros c'. simpl. unfold fupd.
+      destruct (c' =? c); [apply add1_bounded; [exact LT|apply A]|apply A].
+  - simpl. apply (qb_frame st); try reflexivity; exact QB.
+Qed.
+
+(* ---------------------------------------------------------------- the invariant along every history, completeness at rest *)
+Theorem qinv_step p a st : Tinv st -> Qinv st -> valid st a -> Qinv (step repaired p a st).
+Proof. intros TI Q V. split; [apply qc_step; assumption|apply qb_step; [exact TI|exact (proj2 Q)|exact V]]. Qed.
+
+Lemma qinv_init cs : Qinv (init cs).
+Proof.
+  split; [|split].
+  - intros n t c id I L. simpl in I. repeat (destruct I as [I|I]; [inversion I; subst; discriminate|]). destruct I.
+  - intros c. apply bounded_0.
+  - intros j E. discriminate.
+Qed.
+
+Theorem qinv_reachable cs l : NoDup cs -> valid_history (init cs) l -> Qinv (run repaired l (init cs)).
+Proof.
+  intros ND. assert (forall st, Tinv st -> Qinv st -> valid_history st l -> Qinv (run repaired l st)) as G.
+  { unfold run. induction l as [|[p a] l IH]; simpl; intros st TI Q V; [exact Q|].
+    destruct V as (V1 & V2). apply IH; [apply Tinv_step; assumption|apply qinv_step; assumption|exact V2]. }
+  intros V. apply G; [apply Tinv_init; exact ND|apply qinv_init|exact V].
+Qed.
+
+Lemma qinv_jsteps st st' : Tinv st -> Qinv st -> jsteps st st' -> Qinv st'.
+Proof.
+  intros TI Q H. induction H as [|st st' st'' (p & a & En & E) H IH]; [exact Q|]. subst st'.
+  apply IH.
+  - eapply Tinv_jstep; [exact TI|]. exists p, a. split; [exact En|reflexivity].
+  - apply qinv_step; [exact TI|exact Q|]. destruct a; try exact I; try (destruct En; fail). exact (proj2 En).
+Qed.
+
+(* at rest every stream matching a tag with an attached converter has cached output of its current version *)
+Theorem complete_at_rest st : Tinv st -> Qinv st -> quiescent st -> jconv st = None ->
+  forall n t c id, In (n, t) (tags st) -> t_live t = true -> memN c (t_conv t) = true -> memN c (convs st) = true ->
+  mem id (t_m t) = true -> cache st c id = Some (ver st id).
+Proof.
+  intros TI (Q & _) (_ & _ & TZ & _) JC n t c id I L C CV M.
+  pose proof (proj1 (Tinv_split st) TI) as (_ & _ & CI).
+  destruct (Q n t c id I L C M) as [H|[H|(j & E & _)]].
+  - destruct (cache st c id) as [v|] eqn:E; [|congruence]. rewrite (cinv_quiet st CI JC c id v E). reflexivity.
+  - rewrite (TZ c CV), mem_0 in H. discriminate.
+  - congruence.
+Qed.
+
+(* detachConverterFromTag removes the tag's own streams from the queue *)
+Theorem detach_dequeues st n c t : tget n (tags st) = Some t ->
+  forall id, mem id (toconv (detach st n c) c) = true ->
+  mem id (toconv st c) = true /\
+  (mem id (t_m t) = false \/ exists k b, In (k, b) (tags (detach st n c)) /\ k <> n /\ tag_has_conv c b = true /\ mem id (t_m b) = true).
+Proof.
+  intros Tn id H. unfold detach in *. rewrite Tn in *.
+  set (ts := tset n (mkTag (t_def t) (t_m t) (t_u t) (filter (fun x => negb (x =? c)) (t_conv t))) (tags st)) in *.
+  set (matching := fold_left (fun a nt => if negb (fst nt =? n) && tag_has_conv c (snd nt) then union a (t_m (snd nt)) else a) ts 0) in *.
+  assert (mem id (diff (toconv st c) (diff (t_m t) matching)) = true) as H1.
+  { destruct (is0 matching); simpl in H; unfold fupd in H; rewrite N.eqb_refl in H; exact H. }
+  rewrite mem_diff, mem_diff in H1. apply andb_true_iff in H1. destruct H1 as (A & B). split; [exact A|].
+  destruct (mem id (t_m t)); [|left; reflexivity]. simpl in B. apply negb_true_iff in B. apply negb_false_iff in B.
+  right. unfold matching in B. apply mem_matching in B. destruct B as [B|(k & b & I & NE & HC & M)]; [rewrite mem_0 in B; discriminate|].
+  exists k, b. split; [|auto]. destruct (is0 matching); exact I.
+Qed.
+
+(* every schedule from every reachable state ends with complete, current converter output *)
+Theorem reachable_complete cs l st' : NoDup cs -> valid_history (init cs) l ->
+  jsteps (run repaired l (init cs)) st' -> (forall st'', ~ jstep st' st'') ->
+  forall n t c id, In (n, t) (tags st') -> t_live t = true -> memN c (t_conv t) = true -> memN c (convs st') = true ->
+  mem id (t_m t) = true -> cache st' c id = Some (ver st' id).
+Proof.
+  intros ND V JS ST. pose proof (Tinv_reachable cs l ND V) as TI0. pose proof (qinv_reachable cs l ND V) as Q0.
+  pose proof (Tinv_jsteps _ _ TI0 JS) as TI. pose proof (qinv_jsteps _ _ TI0 Q0 JS) as Q.
+  destruct (stuck_quiescent st' TI ST) as (QU & _). destruct (stuck_no_job st' ST) as (_ & _ & JC & _).
+  apply complete_at_rest; assumption.
 Qed.
